@@ -32,6 +32,7 @@ type World struct {
 	shapes  *shapeSet
 	shapeNotes []string
 	renameNotes []string
+	extWr map[string]bool
 }
 
 // scratchMod copies go.mod/go.sum of /repo into a scratch dir so that module
@@ -206,4 +207,47 @@ func specLines(f *ast.File) []string {
 		}
 	}
 	return lines
+}
+
+// extWritten: does any repository function store into a struct of the given external package (through a field address)?
+// The typeinv assumptions on such structs are only sound while the repository treats them as read-only data.
+func (w *World) extWritten(pkgPath string) bool {
+	if w.extWr == nil {
+		w.extWr = map[string]bool{}
+	}
+	if v, ok := w.extWr[pkgPath]; ok {
+		return v
+	}
+	found := false
+	for _, fn := range w.Funcs {
+		for _, b := range fn.Blocks {
+			for _, in := range b.Instrs {
+				st, ok := in.(*ssa.Store)
+				if !ok {
+					continue
+				}
+				a := st.Addr
+				for d := 0; d < 6; d++ {
+					switch x := a.(type) {
+					case *ssa.FieldAddr:
+						if pt, ok := x.X.Type().Underlying().(*types.Pointer); ok {
+							if n, ok := pt.Elem().(*types.Named); ok && n.Obj().Pkg() != nil && n.Obj().Pkg().Path() == pkgPath {
+								if _, local := x.X.(*ssa.Alloc); !local {
+									found = true
+								}
+							}
+						}
+						a = x.X
+						continue
+					case *ssa.IndexAddr:
+						a = x.X
+						continue
+					}
+					break
+				}
+			}
+		}
+	}
+	w.extWr[pkgPath] = found
+	return found
 }
